@@ -757,6 +757,11 @@ func (ev *SpecEnv) call(n *SCall) TV {
 		for i, p := range sf.Params {
 			a := ev.eval(n.Args[i])
 			if pt := ev.lookupTypeIn(p.Type, sf.Pkg); pt != nil {
+				if _, isSl := pt.Underlying().(*types.Slice); isSl {
+					if b, ok := a.t.(*types.Basic); ok && b.Kind() == types.UntypedNil {
+						a = TV{x.zeroVal(pt), pt}
+					}
+				}
 				if isUntyped(a.t) || (x.bv && isIntType(a.t) && isIntType(pt) && !types.Identical(a.t.Underlying(), pt.Underlying())) {
 					a = ev.convert(a, pt)
 				} else if isIntType(pt) && isIntType(a.t) {
